@@ -107,15 +107,17 @@ class C05(fw.Prop):
             "Green-Book, McGrew-Viega and RFC 3394 vectors; random keys of suites 0/1/2, titles, counters incl. 0 and 2^32-1, every security-control "
             "byte 0..255; plaintext lengths 0..2048 (all in thorough, boundary and random ones in quick); keys of length 0..40, titles of length 0..12, "
             "counter 2^32; fault enumeration on the real primitive (validation of the idealisation): every single-bit flip and every truncation of N "
-            "protected texts, every single-bit flip of key, authentication key, title, counter, security-control byte - removal must raise; single AES "
-            "blocks against the package's ECB mode; non-trivial = distinct input")
+            "protected texts, every single-bit flip of key, authentication key, title, counter, security-control byte - removal must raise, also through the APDU object (fresh and "
+            "re-used after a successful removal) and the connection; texts made outside the library under nonces from titles of 0..16 bytes; plaintexts whose "
+            "protected text begins like a header (security control || counter, tag and title); single AES blocks against the package's ECB mode; non-trivial = distinct input")
     trusted_base = ["Spec.Aes / Spec.Gcm are FIPS 197 / SP 800-38D / RFC 3394 as I wrote them down (validated by the standard vectors and against the `cryptography` package)",
                     "extract.py (key-length table, tag length)", "the ideal-AEAD abstraction for 'every tampering is detected' (DESIGN.md §5b)",
-                    "AES decryption inverts AES encryption (hypothesis of C05_unwrap_wrap; checked on every block the driver sees)"]
+                    "the meter's side of the connection-level harnesses uses harness/refcrypto.py (the same construction written straight on the `cryptography` primitives), not dlms_cosem.security"]
     assumptions = ["counters are non-negative integers", "'every tampering is detected' is a theorem about the ideal primitive and about the tag / too-short texts on the real construction; on the real primitive it is validated by exhaustive single-fault enumeration"]
-    technique = "Lean 4 proof: construction by unfolding against an executable GCM reference, round trip and key-wrap inversion generic in the block function (induction over blocks / wrap steps), injectivity of the parameter composition, tamper theorem over an ideal AEAD; differential correspondence byte for byte with a Lean AES-GCM; fault enumeration on the real primitive"
+    technique = "Lean 4 proof: construction by unfolding against an executable GCM reference, round trip and key-wrap inversion generic in the block function (induction over blocks / wrap steps) and instantiated with the Lean AES, whose decryption is proved to invert its encryption (C05_aes_inverse), injectivity of the parameter composition, tamper theorem over an ideal AEAD; differential correspondence byte for byte with a Lean AES-GCM; fault enumeration on the real primitive"
     level_text = ("C05_encrypt_is_gcm / C05_gmac_is_gcm / C05_decrypt_encrypt / C05_bad_lengths_refused / C05_key_lengths / C05_tag_tamper_detected / C05_short_text_refused / "
-                  "C05_parameters_bound / C05_ideal_tamper_detected / C05_unwrap_wrap: theorems over every plaintext, key, title, counter and block function. Tied to security.py by "
+                  "C05_parameters_bound / C05_ideal_tamper_detected / C05_unwrap_wrap / C05_aes_block_length / C05_aes_inverse / C05_unwrap_wrap_aes: theorems over every plaintext, key, title, counter and block function, "
+                  "the key-wrap round trip also for the Lean AES-128/256 itself (its inverse cipher is proved to be the inverse). Tied to security.py by "
                   "byte-for-byte comparison with an executable AES-GCM / key wrap written in Lean, and by single-fault enumeration.")
     level_note = "Trusted: Lean kernel (+propext, Classical.choice, Quot.sound), Spec.Aes/Gcm as the reading of the standards, the ideal-AEAD abstraction, extract.py, the harness."
     chunk = 3000
